@@ -39,6 +39,10 @@ pub struct Inst {
     /// use the named public constructor (`new_count`, `new_sum_vec`, ...) when possible
     #[serde(default)]
     pub named: bool,
+    /// Prio3 only: the XOF the instance is built over: "" = XofTurboShake128 (32-byte seeds),
+    /// "hmac" = XofHmacSha256Aes128 (32), "fixedkey" = XofFixedKeyAes128 (16-byte seeds and verify key)
+    #[serde(default, skip_serializing_if = "String::is_empty")]
+    pub xof: String,
 }
 
 impl Inst {
@@ -47,6 +51,14 @@ impl Inst {
     }
     pub fn is_prio3(&self) -> bool {
         !matches!(self.class.as_str(), "poplar1" | "prio2")
+    }
+    /// seed / verification-key size of the instance
+    pub fn seed_size(&self) -> usize {
+        if self.is_prio3() && self.xof == "fixedkey" {
+            16
+        } else {
+            32
+        }
     }
     pub fn has_joint_rand(&self) -> bool {
         matches!(self.class.as_str(), "sumvec" | "sumvec64" | "hist" | "multihot" | "l1")
@@ -86,10 +98,9 @@ pub trait SimVdaf<const VK: usize>: Aggregator<VK, 16, InputShare: 'static, Publ
     fn dec_cont(&self, agg_id: usize, b: &[u8]) -> Result<PingPongContinuation<VK, 16, Self>, CodecError>;
 }
 
-impl<T: Type + 'static, const S: usize> SimVdaf<S> for Prio3<T, XofTurboShake128, S>
+impl<T: Type + 'static, X: prio::vdaf::xof::Xof<S> + 'static, const S: usize> SimVdaf<S> for Prio3<T, X, S>
 where
-    Prio3<T, XofTurboShake128, S>: Aggregator<S, 16, VerifyState = prio::vdaf::prio3::Prio3VerifyState<T::Field, S>> + Collector,
-    XofTurboShake128: prio::vdaf::xof::Xof<S>,
+    Prio3<T, X, S>: Aggregator<S, 16, VerifyState = prio::vdaf::prio3::Prio3VerifyState<T::Field, S>> + Collector,
 {
     fn enc_state(s: &Self::VerifyState) -> Result<Vec<u8>, CodecError> {
         s.get_encoded()
@@ -263,17 +274,17 @@ pub trait P3Class {
     fn result_vec(&self, r: &<Self::T as Type>::AggregateResult) -> Vec<u128>;
 }
 
-pub struct P3Ad<C: P3Class> {
+pub struct P3Ad<C: P3Class, X: prio::vdaf::xof::Xof<S>, const S: usize> {
     pub inst: Inst,
     pub cls: C,
-    pub evil: Prio3<Evil<C::T>, XofTurboShake128, 32>,
+    pub evil: Prio3<Evil<C::T>, X, S>,
     pub modulus: u128,
     pub fsize: usize,
 }
 
 pub use crate::model::{add_mod, bits_of, P64};
 
-impl<C: P3Class> P3Ad<C>
+impl<C: P3Class, X: prio::vdaf::xof::Xof<S>, const S: usize> P3Ad<C, X, S>
 where
     <<C::T as Flp>::Field as FieldElementWithInteger>::Integer: IntoU128 + TryFrom<u128>,
 {
@@ -282,7 +293,7 @@ where
     }
 }
 
-impl<C: P3Class> Adapter<Prio3<C::T, XofTurboShake128, 32>> for P3Ad<C>
+impl<C: P3Class, X: prio::vdaf::xof::Xof<S> + 'static, const S: usize> Adapter<Prio3<C::T, X, S>> for P3Ad<C, X, S>
 where
     <<C::T as Flp>::Field as FieldElementWithInteger>::Integer: IntoU128 + TryFrom<u128>,
 {
@@ -292,12 +303,12 @@ where
     fn rand_len(&self) -> usize {
         let n = self.inst.n as usize;
         if self.cls.typ().joint_rand_len() == 0 {
-            n * 32
+            n * S
         } else {
-            2 * n * 32
+            2 * n * S
         }
     }
-    fn shard(&self, vdaf: &Prio3<C::T, XofTurboShake128, 32>, ctx: &[u8], meas: &[N], nonce: &[u8; 16], rand: &[u8], evil: bool) -> Result<(Vec<u8>, Vec<Vec<u8>>), ShardErr> {
+    fn shard(&self, vdaf: &Prio3<C::T, X, S>, ctx: &[u8], meas: &[N], nonce: &[u8; 16], rand: &[u8], evil: bool) -> Result<(Vec<u8>, Vec<Vec<u8>>), ShardErr> {
         let r = if evil {
             let raw: Vec<<C::T as Flp>::Field> = meas.iter().map(|x| field_from_u128::<<C::T as Flp>::Field>(x.0)).collect();
             guard("Prio3<Evil>::shard_with_random", || self.evil.shard_with_random(ctx, &raw, nonce, rand)).map_err(ShardErr::Panic)?
@@ -346,7 +357,7 @@ where
         match kind {
             Kind::Public => {
                 if jr {
-                    push("joint_rand_parts", 32 * n, 1, &mut v);
+                    push("joint_rand_parts", S * n, 1, &mut v);
                 }
             }
             Kind::Input => {
@@ -354,34 +365,34 @@ where
                     push("measurement_share", t.input_len() * f, f, &mut v);
                     push("proofs_share", t.proof_len() * proofs * f, f, &mut v);
                     if jr {
-                        push("joint_rand_blind", 32, 1, &mut v);
+                        push("joint_rand_blind", S, 1, &mut v);
                     }
                 } else {
-                    push("share_seed", 32, 1, &mut v);
+                    push("share_seed", S, 1, &mut v);
                     if jr {
-                        push("joint_rand_blind", 32, 1, &mut v);
+                        push("joint_rand_blind", S, 1, &mut v);
                     }
                 }
             }
             Kind::VShare => {
                 push("verifiers", t.verifier_len() * proofs * f, f, &mut v);
                 if jr {
-                    push("joint_rand_part", 32, 1, &mut v);
+                    push("joint_rand_part", S, 1, &mut v);
                 }
             }
             Kind::VMsg => {
                 if jr {
-                    push("joint_rand_seed", 32, 1, &mut v);
+                    push("joint_rand_seed", S, 1, &mut v);
                 }
             }
             Kind::State => {
                 if agg == 0 {
                     push("output_share", t.output_len() * f, f, &mut v);
                 } else {
-                    push("share_seed", 32, 1, &mut v);
+                    push("share_seed", S, 1, &mut v);
                 }
                 if jr {
-                    push("joint_rand_seed", 32, 1, &mut v);
+                    push("joint_rand_seed", S, 1, &mut v);
                 }
             }
             Kind::Out | Kind::AggShare => {
@@ -390,15 +401,15 @@ where
         }
         v
     }
-    fn same_type_instance(&self, other: &Inst) -> Option<Prio3<C::T, XofTurboShake128, 32>> {
+    fn same_type_instance(&self, other: &Inst) -> Option<Prio3<C::T, X, S>> {
         use prio::vdaf::Vdaf;
-        if other.class != self.inst.class || other.mt != self.inst.mt {
+        if other.class != self.inst.class || other.mt != self.inst.mt || other.xof != self.inst.xof {
             return None;
         }
         let typ = C::make(other)?;
         Prio3::new(other.n, other.proofs, self.evil.algorithm_id(), typ).ok()
     }
-    fn alt_algorithm(&self, vdaf: &Prio3<C::T, XofTurboShake128, 32>, xor: u32) -> Option<Prio3<C::T, XofTurboShake128, 32>> {
+    fn alt_algorithm(&self, vdaf: &Prio3<C::T, X, S>, xor: u32) -> Option<Prio3<C::T, X, S>> {
         use prio::vdaf::Vdaf;
         Prio3::new(self.inst.n, self.inst.proofs, vdaf.algorithm_id() ^ xor, self.cls.typ().clone()).ok()
     }
@@ -479,6 +490,19 @@ fn go_p3<C: P3Class, Vis: Visitor>(inst: &Inst, cls: C, named: Option<Result<Pri
 where
     <<C::T as Flp>::Field as FieldElementWithInteger>::Integer: IntoU128 + TryFrom<u128>,
 {
+    match inst.xof.as_str() {
+        "" | "turboshake" => go_p3x::<C, XofTurboShake128, 32, Vis>(inst, cls, named, alg, vis),
+        // other XOFs: always through the generic constructor (the named constructors fix TurboSHAKE128)
+        "hmac" => go_p3x::<C, prio::vdaf::xof::XofHmacSha256Aes128, 32, Vis>(inst, cls, None, alg, vis),
+        "fixedkey" => go_p3x::<C, prio::vdaf::xof::XofFixedKeyAes128, 16, Vis>(inst, cls, None, alg, vis),
+        x => Err(BuildErr::Unknown(format!("unknown xof {x}"))),
+    }
+}
+
+fn go_p3x<C: P3Class, X: prio::vdaf::xof::Xof<S> + 'static, const S: usize, Vis: Visitor>(inst: &Inst, cls: C, named: Option<Result<Prio3<C::T, X, S>, VdafError>>, alg: u32, vis: Vis) -> Result<Vis::Out, BuildErr>
+where
+    <<C::T as Flp>::Field as FieldElementWithInteger>::Integer: IntoU128 + TryFrom<u128>,
+{
     let vdaf = match named {
         Some(r) => r.map_err(vdaf_err)?,
         None => Prio3::new(inst.n, inst.proofs, alg, cls.typ().clone()).map_err(vdaf_err)?,
@@ -487,7 +511,7 @@ where
     let modulus = <<C::T as Flp>::Field as FieldElementWithInteger>::modulus().to_u128();
     let fsize = <<C::T as Flp>::Field as prio::field::FieldElement>::ENCODED_SIZE;
     let ad = P3Ad { inst: inst.clone(), cls, evil, modulus, fsize };
-    Ok(vis.visit::<_, _, 32>(&vdaf, &ad))
+    Ok(vis.visit::<_, _, S>(&vdaf, &ad))
 }
 
 /// Build the instance described by `inst` with the real library constructors and hand it to `vis`.
@@ -605,6 +629,19 @@ fn pick_chunk(rng: &mut Rng, ilen: usize) -> u32 {
 }
 
 /// Draw a Prio3 instance; `small` keeps sizes tiny (for position-exhaustive fault placement).
+/// Prio3 is generic over the XOF: a quarter of the instances are built over one of the other two shipped XOFs
+/// (XofHmacSha256Aes128 as in Prio3SumVecField64MultiproofHmacSha256Aes128; XofFixedKeyAes128 with 16-byte seeds).
+pub fn pick_xof(rng: &mut Rng, inst: &mut Inst) {
+    if !inst.is_prio3() {
+        return;
+    }
+    inst.xof = match rng.below(8) {
+        0 => "hmac".to_string(),
+        1 => "fixedkey".to_string(),
+        _ => String::new(),
+    };
+}
+
 pub fn gen_prio3_inst(rng: &mut Rng, small: bool, allow_mt: bool) -> Inst {
     let classes: &[(&str, u32)] = &[("count", 2), ("sum", 3), ("avg", 2), ("sumvec", 4), ("sumvec64", 3), ("hist", 4), ("multihot", 3), ("l1", 3)];
     let w: Vec<u32> = classes.iter().map(|c| c.1).collect();
@@ -615,7 +652,7 @@ pub fn gen_prio3_inst(rng: &mut Rng, small: bool, allow_mt: bool) -> Inst {
     }
     let mut proofs = 1u8;
     let lenmax = if small { 6 } else if rng.chance(1, 40) { 200 } else { 24 };
-    let mut inst = Inst { class: class.to_string(), n, proofs: 1, max: N(1), len: 1, chunk: 1, weight: 1, mt: false, named: rng.chance(1, 2) };
+    let mut inst = Inst { class: class.to_string(), n, proofs: 1, max: N(1), len: 1, chunk: 1, weight: 1, mt: false, named: rng.chance(1, 2), xof: String::new() };
     match class {
         "count" => {}
         "sum" => inst.max = N(pick_bound(rng, P64, 63)),
